@@ -113,6 +113,10 @@ struct Runner
   // keys on which persist/expireAt was called while the model said "expired": if such a
   // key becomes visible again the failure gets its own structural signature
   std::map<std::string, std::string> revivedBy;
+  // keys whose expiry was cleared/moved by persist/expireAt since their value was written
+  // (the value record and the expiry record are then separate log records)
+  std::set<std::string> expiryChanged;
+  bool justReopened = false;
   std::uint64_t boundaryReads = 0;
 
   Runner(pbt::Case &cc, const kvref::Universe &u, Cfg cf, std::string p)
@@ -141,6 +145,8 @@ struct Runner
     {
       auto it = revivedBy.find(key);
       if (it != revivedBy.end()) s = "C12/expired-key-revived-by-" + it->second;
+      else if (justReopened && sig.find("misses-live-key") != std::string::npos && expiryChanged.count(key))
+        s = "C12/restart-loses-key-whose-expiry-was-changed";
     }
     c.fail(s, pbt::Fmt() << "after step " << step << " (" << lastOp << ") at t=+" << (now() - kBaseMs)
                          << "ms: " << what);
@@ -251,6 +257,21 @@ struct Runner
   }
 };
 
+// Key for an operation: r[1] selects from the universe; when bit 4 of r[3] is set and the
+// reference holds keys, r[1] selects among the keys currently in the reference instead (so
+// that overwrite / persist / expireAt / remove hit an existing - possibly expired - key).
+const std::string &chooseKey(const kvref::Universe &U, const Model &m, const pbt::Row &r)
+{
+  if (((r[3] >> 4) & 1) && !m.m.empty())
+  {
+    auto it = m.m.begin();
+    std::advance(it, static_cast<long>(static_cast<std::size_t>(r[1]) % m.m.size()));
+    for (const auto &k : U.keys)
+      if (k == it->first) return k;
+  }
+  return U.key(r[1]);
+}
+
 std::string renderOps(const std::vector<std::string> &ops)
 {
   std::string s;
@@ -312,7 +333,7 @@ void runHistory(pbt::Case &c, Cfg cfg, const std::vector<pbt::Row> &rows)
         {
         case OpSet:
         {
-          const std::string &k = U.key(r[1]);
+          const std::string &k = chooseKey(U, R.model, r);
           Bytes v = kvref::makeValue(r[2], R.step);
           desc = "set(" + kvref::showKey(k) + "," + kvref::showVal(v) + ")";
           auto it = R.model.m.find(k);
@@ -320,11 +341,12 @@ void runHistory(pbt::Case &c, Cfg cfg, const std::vector<pbt::Row> &rows)
           R.kv->set(k, v);
           R.model.set(k, v);
           R.revivedBy.erase(k);
+          R.expiryChanged.erase(k);
           break;
         }
         case OpSetTtl:
         {
-          const std::string &k = U.key(r[1]);
+          const std::string &k = chooseKey(U, R.model, r);
           Bytes v = kvref::makeValue(r[2], R.step);
           std::int64_t ttl = kTtlSec[r[3] % 8];
           desc = pbt::Fmt() << "setTtl(" << kvref::showKey(k) << "," << kvref::showVal(v) << "," << ttl << "s)";
@@ -334,6 +356,7 @@ void runHistory(pbt::Case &c, Cfg cfg, const std::vector<pbt::Row> &rows)
           else R.kv->set(k, v, std::chrono::seconds(ttl));
           R.model.setTtl(k, v, t + ttl * 1000);
           R.revivedBy.erase(k);
+          R.expiryChanged.erase(k);
           ttlOpSeen = true;
           break;
         }
@@ -364,13 +387,14 @@ void runHistory(pbt::Case &c, Cfg cfg, const std::vector<pbt::Row> &rows)
             if (withTtl) R.model.setTtl(kvp.first, kvp.second, t + ttl * 1000);
             else R.model.set(kvp.first, kvp.second);
             R.revivedBy.erase(kvp.first);
+            R.expiryChanged.erase(kvp.first);
           }
           if (withTtl) ttlOpSeen = true;
           break;
         }
         case OpRemove:
         {
-          const std::string &k = U.key(r[1]);
+          const std::string &k = chooseKey(U, R.model, r);
           desc = "remove(" + kvref::showKey(k) + ")";
           R.kv->remove(k);
           R.model.remove(k);
@@ -409,7 +433,7 @@ void runHistory(pbt::Case &c, Cfg cfg, const std::vector<pbt::Row> &rows)
           break;
         case OpExpireAt:
         {
-          const std::string &k = U.key(r[1]);
+          const std::string &k = chooseKey(U, R.model, r);
           std::int64_t off = kExpireOff[r[2] % 11];
           desc = pbt::Fmt() << "expireAt(" << kvref::showKey(k) << ",now" << (off >= 0 ? "+" : "") << off << "ms)";
           auto v = R.model.vis(k, t);
@@ -429,6 +453,7 @@ void runHistory(pbt::Case &c, Cfg cfg, const std::vector<pbt::Row> &rows)
           R.kv->expireAt(k, std::chrono::system_clock::time_point(std::chrono::milliseconds(t + off)));
           if (v == Model::Present)
           {
+            if (R.model.m[k].expiry) R.expiryChanged.insert(k);
             R.model.m[k].expiry = t + off;
             ttlOpSeen = true;
             c.label(off < 0 ? "expireAt past" : off == 0 ? "expireAt now" : "expireAt future");
@@ -442,7 +467,7 @@ void runHistory(pbt::Case &c, Cfg cfg, const std::vector<pbt::Row> &rows)
         }
         case OpPersist:
         {
-          const std::string &k = U.key(r[1]);
+          const std::string &k = chooseKey(U, R.model, r);
           desc = "persist(" + kvref::showKey(k) + ")";
           auto v = R.model.vis(k, t);
           if (v == Model::Boundary)
@@ -461,7 +486,7 @@ void runHistory(pbt::Case &c, Cfg cfg, const std::vector<pbt::Row> &rows)
           R.kv->persist(k);
           if (v == Model::Present)
           {
-            if (R.model.m[k].expiry) c.label("persist of a TTL key");
+            if (R.model.m[k].expiry) { c.label("persist of a TTL key"); R.expiryChanged.insert(k); }
             R.model.m[k].expiry.reset();
           }
           else if (expiredResident)
@@ -483,6 +508,7 @@ void runHistory(pbt::Case &c, Cfg cfg, const std::vector<pbt::Row> &rows)
           R.lastOp = desc;
           R.kv.reset();
           if (!R.open()) ok = false;
+          R.justReopened = true;
           if (ttlOpSeen) { ntRestartAfterTtl = true; c.label("restart after TTL operations"); }
           break;
         }
@@ -531,6 +557,7 @@ void runHistory(pbt::Case &c, Cfg cfg, const std::vector<pbt::Row> &rows)
       rendered.push_back(desc);
       c.label(std::string("op ") + kOpName[op]);
       if (ok) ok = R.checkAll();
+      R.justReopened = false;
     }
     // final restart: nothing expired may reappear, nothing live may be lost
     if (ok)
@@ -538,6 +565,7 @@ void runHistory(pbt::Case &c, Cfg cfg, const std::vector<pbt::Row> &rows)
       R.step = rows.size() + 1;
       R.lastOp = "final close+reopen";
       R.kv.reset();
+      R.justReopened = true;
       if (R.open()) ok = R.checkAll();
     }
   }
@@ -605,6 +633,35 @@ PBT_REGRESSION(expired_never_reappear_after_restart)
   cfg.compMode = 2;
   runHistory(c, cfg, {row(OpSetTtl, 0, 2, 2), row(OpBatch, 5, 2, 1), row(OpSet, 3, 2), row(OpExpireAt, 3, 7),
                       row(OpAdvance, 4), row(OpReopen, 1), row(OpCompact), row(OpReopen, 1)});
+}
+
+// TTL set, then persist / extend, restart after the ORIGINAL expiry: the key must survive
+PBT_REGRESSION(persist_then_restart_after_original_expiry)
+{
+  Cfg cfg;
+  cfg.compMode = 2;
+  runHistory(c, cfg, {row(OpSetTtl, 0, 2, 0), row(OpPersist, 0), row(OpAdvance, 4), row(OpReopen, 1)});
+}
+PBT_REGRESSION(extend_then_restart_after_original_expiry)
+{
+  Cfg cfg;
+  cfg.compMode = 2;
+  runHistory(c, cfg, {row(OpSetTtl, 0, 2, 0), row(OpExpireAt, 0, 10), row(OpAdvance, 4), row(OpReopen, 1)});
+}
+// same through a snapshot: TTL key compacted into the snapshot, persisted in the log
+PBT_REGRESSION(persist_after_snapshot_then_restart)
+{
+  Cfg cfg;
+  cfg.compMode = 2;
+  runHistory(c, cfg, {row(OpSetTtl, 0, 2, 0), row(OpCompact), row(OpPersist, 0), row(OpAdvance, 4), row(OpReopen, 1)});
+}
+
+// empty value written, store reloaded (UBSan: memcpy(null, p, 0) in load())
+PBT_REGRESSION(empty_value_reload)
+{
+  Cfg cfg;
+  cfg.compMode = 2;
+  runHistory(c, cfg, {row(OpSet, 0, 0), row(OpSetTtl, 3, 0, 4), row(OpReopen, 1)});
 }
 
 PBT_MAIN()
